@@ -69,11 +69,14 @@ type concreteArg struct {
 	kind   string // "int","bool","bytes","string","ptr","recv","iface"
 }
 
+var replayImports = map[string]bool{}
+
 func qualifier(pkg *types.Package) types.Qualifier {
 	return func(p *types.Package) string {
 		if p == pkg {
 			return ""
 		}
+		replayImports[p.Path()] = true
 		return p.Name()
 	}
 }
@@ -83,6 +86,13 @@ const replayByteCap = 64
 // minimise re-solves the failing query asking for small inputs.
 func minimise(workdir, hdr string, q *Query, x *Exec, timeoutS int) map[string]string {
 	var extra strings.Builder
+	if aliasWant {
+		for _, in := range q.Inputs {
+			if strings.HasSuffix(in.Desc, "#2") {
+				extra.WriteString(fmt.Sprintf("(assert (bvuge %s %s))\n", in.Name, bvLit(3, 64)))
+			}
+		}
+	}
 	for _, in := range q.Inputs {
 		if strings.HasSuffix(in.Desc, "#2") || strings.HasSuffix(in.Desc, "#3") {
 			// len / cap leaves of slices and strings (position 2, 3 of a flattened slice)
@@ -101,6 +111,7 @@ func minimise(workdir, hdr string, q *Query, x *Exec, timeoutS int) map[string]s
 // buildArgs turns the model into Go arguments for fn.
 func buildArgs(fn *ssa.Function, model map[string]string, pkg *types.Package) ([]concreteArg, string) {
 	var args []concreteArg
+	replayImports = map[string]bool{}
 	qual := qualifier(pkg)
 	for i, p := range fn.Params {
 		name := p.Name()
@@ -151,7 +162,7 @@ func buildArgs(fn *ssa.Function, model map[string]string, pkg *types.Package) ([
 				p1, _ := leaf(1)
 				a.leaves = []uint64{p1}
 				a.decl = fmt.Sprintf("%s_buf := new([64]byte)\n\tcopy(%s_buf[:], %s)\n", name, name, goBytes(a.bytes))
-				a.expr = fmt.Sprintf("unsafe.Pointer(%s_buf)", name)
+				a.expr = fmt.Sprintf("pvunsafe.Pointer(%s_buf)", name)
 			case u.Info()&types.IsInteger != 0:
 				v, _ := leaf(1)
 				a.kind = "int"
@@ -168,9 +179,9 @@ func buildArgs(fn *ssa.Function, model map[string]string, pkg *types.Package) ([
 				a.kind = "int"
 				a.leaves = []uint64{v}
 				if u.Kind() == types.Float32 {
-					a.expr = fmt.Sprintf("%s(math.Float32frombits(%d))", a.goType, uint32(v))
+					a.expr = fmt.Sprintf("%s(pvmath.Float32frombits(%d))", a.goType, uint32(v))
 				} else {
-					a.expr = fmt.Sprintf("%s(math.Float64frombits(%d))", a.goType, v)
+					a.expr = fmt.Sprintf("%s(pvmath.Float64frombits(%d))", a.goType, v)
 				}
 			default:
 				a.ok, a.why = false, "unsupported basic parameter type "+a.goType
@@ -243,6 +254,19 @@ func replayPackage(ld *Loaded, fn *ssa.Function) (dir string, pkg *types.Package
 	var tp *types.Package
 	if fn.Pkg != nil {
 		tp = fn.Pkg.Pkg
+	} else if o := fn.Origin(); o != nil && o.Pkg != nil {
+		tp = o.Pkg.Pkg
+	} else if fn.Object() != nil {
+		tp = fn.Object().Pkg()
+	}
+	if tp == nil && fn.Signature.Recv() != nil {
+		rt := fn.Signature.Recv().Type()
+		if p, ok := rt.(*types.Pointer); ok {
+			rt = p.Elem()
+		}
+		if n, ok := rt.(*types.Named); ok {
+			tp = n.Obj().Pkg()
+		}
 	}
 	if tp != nil && strings.HasPrefix(tp.Path(), modPrefix) {
 		rel := strings.TrimPrefix(strings.TrimPrefix(tp.Path(), modPrefix), "/")
@@ -273,6 +297,8 @@ type realOutput struct {
 }
 
 // runReplay generates and runs the test. It returns the real outputs.
+var aliasProbe, aliasWant bool
+
 func runReplay(ld *Loaded, fn *ssa.Function, args []concreteArg, workdir string, repo string) (out *realOutput, goTest string, raw string, status string) {
 	dir, pkg, callee, imports, ok := replayPackage(ld, fn)
 	if !ok {
@@ -280,14 +306,23 @@ func runReplay(ld *Loaded, fn *ssa.Function, args []concreteArg, workdir string,
 	}
 	dir = filepath.Join(repo, strings.TrimPrefix(dir, "/repo"))
 	var b strings.Builder
-	b.WriteString("package " + pkg.Name() + "\n\nimport (\n\t\"encoding/hex\"\n\t\"encoding/json\"\n\t\"fmt\"\n\t\"math\"\n\t\"testing\"\n\t\"unsafe\"\n")
+	b.WriteString("package " + pkg.Name() + "\n\nimport (\n\tpvhex \"encoding/hex\"\n\tpvjson \"encoding/json\"\n\tpvfmt \"fmt\"\n\tpvmath \"math\"\n\t\"testing\"\n\tpvunsafe \"unsafe\"\n")
+	for im := range replayImports {
+		dup := false
+		for _, e := range imports {
+			dup = dup || e == im
+		}
+		if !dup && im != "unsafe" {
+			imports = append(imports, im)
+		}
+	}
 	for _, im := range imports {
 		b.WriteString(fmt.Sprintf("\t%q\n", im))
 	}
-	b.WriteString(")\n\nvar _ = math.Float64bits\nvar _ = hex.EncodeToString\nvar _ unsafe.Pointer\n\n")
+	b.WriteString(")\n\nvar _ = pvmath.Float64bits\nvar _ = pvhex.EncodeToString\nvar _ pvunsafe.Pointer\n\n")
 	b.WriteString("func TestPlencvcReplay(t *testing.T) {\n")
 	b.WriteString("\ttype outT struct {\n\t\tPanic string `json:\"panic\"`\n\t\tResults []string `json:\"results\"`\n\t\tPost map[string]string `json:\"post\"`\n\t}\n\tvar out outT\n\tout.Post = map[string]string{}\n")
-	b.WriteString("\temit := func() { j, _ := json.Marshal(out); fmt.Println(\"REPLAY-JSON: \" + string(j)) }\n")
+	b.WriteString("\temit := func() { j, _ := pvjson.Marshal(out); pvfmt.Println(\"REPLAY-JSON: \" + string(j)) }\n")
 	var exprs []string
 	for _, a := range args {
 		b.WriteString("\t" + a.decl)
@@ -298,13 +333,17 @@ func runReplay(ld *Loaded, fn *ssa.Function, args []concreteArg, workdir string,
 	start := 0
 	call := callee
 	if fn.Signature.Recv() != nil {
-		call = "(" + args[0].expr + ")." + fn.Name()
+		mname := fn.Name()
+		if k := strings.Index(mname, "["); k >= 0 {
+			mname = mname[:k]
+		}
+		call = "(" + args[0].expr + ")." + mname
 		start = 1
 	}
 	for _, a := range args[start:] {
 		exprs = append(exprs, a.expr)
 	}
-	b.WriteString("\tfunc() {\n\t\tdefer func() {\n\t\t\tif r := recover(); r != nil {\n\t\t\t\tout.Panic = fmt.Sprint(r)\n\t\t\t}\n\t\t}()\n")
+	b.WriteString("\tfunc() {\n\t\tdefer func() {\n\t\t\tif r := recover(); r != nil {\n\t\t\t\tout.Panic = pvfmt.Sprint(r)\n\t\t\t}\n\t\t}()\n")
 	nres := fn.Signature.Results().Len()
 	var rv []string
 	for i := 0; i < nres; i++ {
@@ -321,21 +360,21 @@ func runReplay(ld *Loaded, fn *ssa.Function, args []concreteArg, workdir string,
 		case *types.Basic:
 			switch {
 			case u.Kind() == types.String:
-				b.WriteString(fmt.Sprintf("\t\tout.Results = append(out.Results, \"hex:\"+hex.EncodeToString([]byte(r%d)))\n", i))
+				b.WriteString(fmt.Sprintf("\t\tout.Results = append(out.Results, \"hex:\"+pvhex.EncodeToString([]byte(r%d)))\n", i))
 			case u.Kind() == types.Bool:
-				b.WriteString(fmt.Sprintf("\t\tout.Results = append(out.Results, fmt.Sprint(r%d))\n", i))
+				b.WriteString(fmt.Sprintf("\t\tout.Results = append(out.Results, pvfmt.Sprint(r%d))\n", i))
 			case u.Info()&types.IsFloat != 0 && u.Kind() == types.Float32:
-				b.WriteString(fmt.Sprintf("\t\tout.Results = append(out.Results, fmt.Sprint(math.Float32bits(float32(r%d))))\n", i))
+				b.WriteString(fmt.Sprintf("\t\tout.Results = append(out.Results, pvfmt.Sprint(pvmath.Float32bits(float32(r%d))))\n", i))
 			case u.Info()&types.IsFloat != 0:
-				b.WriteString(fmt.Sprintf("\t\tout.Results = append(out.Results, fmt.Sprint(math.Float64bits(float64(r%d))))\n", i))
+				b.WriteString(fmt.Sprintf("\t\tout.Results = append(out.Results, pvfmt.Sprint(pvmath.Float64bits(float64(r%d))))\n", i))
 			case u.Kind() == types.UnsafePointer:
-				b.WriteString(fmt.Sprintf("\t\tout.Results = append(out.Results, fmt.Sprint(uintptr(r%d)))\n", i))
+				b.WriteString(fmt.Sprintf("\t\tout.Results = append(out.Results, pvfmt.Sprint(uintptr(r%d)))\n", i))
 			default:
-				b.WriteString(fmt.Sprintf("\t\tout.Results = append(out.Results, fmt.Sprint(uint64(r%d)))\n", i))
+				b.WriteString(fmt.Sprintf("\t\tout.Results = append(out.Results, pvfmt.Sprint(uint64(r%d)))\n", i))
 			}
 		case *types.Slice:
 			if isByte(u.Elem()) {
-				b.WriteString(fmt.Sprintf("\t\tif r%d == nil { out.Results = append(out.Results, \"nilslice\") } else { out.Results = append(out.Results, fmt.Sprintf(\"hex:%%s:%%d\", hex.EncodeToString(r%d), cap(r%d))) }\n", i, i, i))
+				b.WriteString(fmt.Sprintf("\t\tif r%d == nil { out.Results = append(out.Results, \"nilslice\") } else { out.Results = append(out.Results, pvfmt.Sprintf(\"hex:%%s:%%d\", pvhex.EncodeToString(r%d), cap(r%d))) }\n", i, i, i))
 			} else {
 				b.WriteString(fmt.Sprintf("\t\t_ = r%d\n\t\tout.Results = append(out.Results, \"?\")\n", i))
 			}
@@ -346,13 +385,29 @@ func runReplay(ld *Loaded, fn *ssa.Function, args []concreteArg, workdir string,
 		}
 	}
 	b.WriteString("\t}()\n")
+	if aliasProbe {
+		// aliasing scenario: read the decoded bytes, scribble over every input buffer, read them again
+		for _, a := range args {
+			if a.kind == "ptr" {
+				b.WriteString(fmt.Sprintf("\tprobe := func() string { h := *(*struct{ p pvunsafe.Pointer; n int })(pvunsafe.Pointer(%s_buf)); if h.p == nil || h.n <= 0 || h.n > 4096 { return \"\" }; return pvhex.EncodeToString(pvunsafe.Slice((*byte)(h.p), h.n)) }\n", a.name))
+				b.WriteString("\tout.Post[\"alias.before\"] = probe()\n")
+				for _, d := range args {
+					if d.kind == "bytes" && d.decl != "" {
+						b.WriteString(fmt.Sprintf("\tfor i := range %s_arg { %s_arg[i] ^= 0xff }\n", d.name, d.name))
+					}
+				}
+				b.WriteString("\tout.Post[\"alias.after\"] = probe()\n")
+				break
+			}
+		}
+	}
 	for _, a := range args {
 		switch a.kind {
 		case "ptr":
-			b.WriteString(fmt.Sprintf("\tout.Post[%q] = hex.EncodeToString(%s_buf[:])\n", "*"+a.name, a.name))
+			b.WriteString(fmt.Sprintf("\tout.Post[%q] = pvhex.EncodeToString(%s_buf[:])\n", "*"+a.name, a.name))
 		case "bytes":
 			if a.decl != "" {
-				b.WriteString(fmt.Sprintf("\tout.Post[%q] = hex.EncodeToString(%s_arg)\n", a.name, a.name))
+				b.WriteString(fmt.Sprintf("\tout.Post[%q] = pvhex.EncodeToString(%s_arg)\n", a.name, a.name))
 			}
 		}
 	}
@@ -414,7 +469,9 @@ func replayObligation(ld *Loaded, specs *Specs, x *Exec, o *Obligation, q *Query
 	workdir, _ := os.MkdirTemp(workroot, "replay")
 	defer os.RemoveAll(workdir)
 	hdr := header(specs, x)
+	aliasWant = o.Kind == "alias"
 	model := minimise(workdir, hdr, q, x, timeoutS)
+	aliasWant = false
 	res.Inputs = map[string]string{}
 	for k, v := range model {
 		if !strings.Contains(k, "[") {
@@ -436,7 +493,9 @@ func replayObligation(ld *Loaded, specs *Specs, x *Exec, o *Obligation, q *Query
 			res.Inputs[a.name] = "hex:" + hex.EncodeToString(a.bytes)
 		}
 	}
+	aliasProbe = o.Kind == "alias"
 	out, goTest, raw, status := runReplay(ld, x.fn, args, workdir, repo)
+	aliasProbe = false
 	res.GoTest = goTest
 	res.Output = tail(raw, 2000)
 	switch status {
@@ -462,7 +521,24 @@ func replayObligation(ld *Loaded, specs *Specs, x *Exec, o *Obligation, q *Query
 		res.Detail = out.Panic
 		return res
 	}
+	switch {
+	case strings.Contains(o.Text, "wf") && strings.Contains(o.Text, "()"):
+		res.How = "not-reproduced"
+		res.Detail = "clause is stated under a ghost hypothesis and cannot be evaluated on a concrete output"
+		return res
+	}
 	switch o.Kind {
+	case "alias":
+		bf, af := out.Post["alias.before"], out.Post["alias.after"]
+		if bf != "" && bf != af {
+			res.Reproduced = true
+			res.How = "decoded-value-changed-when-input-was-overwritten"
+			res.Detail = fmt.Sprintf("decoded bytes %s became %s after the input buffer was overwritten", bf, af)
+		} else {
+			res.How = "not-reproduced"
+			res.Detail = fmt.Sprintf("decoded bytes before/after overwriting the input: %q / %q", bf, af)
+		}
+		return res
 	case "ensures", "appends":
 		violated, detail := evalOnReal(specs, x, o, args, out, workdir, timeoutS)
 		res.Detail = detail
